@@ -205,8 +205,20 @@ def _imports():
     from xdsl.ir.post_order import PostOrderIterator
     from xdsl.irdl import dominance as dommod
     from xdsl.dialects.builtin import i32
+    from xdsl.ir import post_order as pomod
+    from xdsl.rewriter import Rewriter
+    import inspect
     _X.update(TestOp=TestOp, TestTermOp=TestTermOp, Block=Block, Region=Region, PostOrderIterator=PostOrderIterator,
-              DominanceInfo=dommod.DominanceInfo, strictly_dominates=dommod.strictly_dominates, i32=i32)
+              DominanceInfo=dommod.DominanceInfo, strictly_dominates=dommod.strictly_dominates, i32=i32, Rewriter=Rewriter)
+    # public module-level API of the two anchored modules (functions/classes defined there, not imported names)
+    api = []
+    for mod, tag in ((dommod, "dominance"), (pomod, "post_order")):
+        for name, obj in vars(mod).items():
+            if name.startswith("_") or getattr(obj, "__module__", None) != mod.__name__:
+                continue
+            if inspect.isfunction(obj) or inspect.isclass(obj):
+                api.append(f"{tag}.{name}")
+    _X["public_api"] = sorted(api)
 
 
 def build(succs, variant, order=None, wrap=False):
@@ -259,11 +271,13 @@ class Ctx:
         self.nontrivial_count = 0
         self.hashes: list[str] = []
         self.samples: list = []
+        self.keyp = ""  # mechanism-key prefix (edit histories: "after-<edit kind>:")
 
     def c(self, k, n=1):
         self.counters[k] = self.counters.get(k, 0) + n
 
     def viol(self, key, summary, witness):
+        key = self.keyp + key
         self.c("violating_observations")
         self.c("viol:" + key)
         self.per_key[key] = self.per_key.get(key, 0) + 1
@@ -293,10 +307,22 @@ def nontrivial(succs, R):
 
 
 def run_case(cx: Ctx, succs, variant=0, order=None, wrap=False, cross_check=False, module_fn="all", record_hash=False):
+    succs = tuple(tuple(s) for s in succs)
+    region, blocks, term_ok, holder = build(succs, variant, order, wrap)
+    wit = {"succs": [list(s) for s in succs], "variant": variant, "order": list(order) if order else None,
+           "wrap": wrap, "replay_job": {"kind": "one", "succs": [list(s) for s in succs], "variant": variant,
+                                         "order": list(order) if order else None, "wrap": wrap}}
+    check_graph(cx, succs, region, blocks, term_ok, wit, order=order, variant=variant, cross_check=cross_check,
+                module_fn=module_fn, record_hash=record_hash)
+
+
+def check_graph(cx: Ctx, succs, region, blocks, term_ok, wit, order=None, variant=0, cross_check=False, module_fn="all",
+                record_hash=False, count_nt=True, sample=True):
+    """Compare the real dominance / post-order answers for `region` with the reference computed from `succs`, the
+    INTENDED edges (index i = blocks[i], index 0 = entry). `succs` is never read back from the IR."""
     X = _X
     n = len(succs)
     succs = tuple(tuple(s) for s in succs)
-    region, blocks, term_ok, holder = build(succs, variant, order, wrap)
     cx.c("graphs")
     R, dom = ref_dom(succs)
     if cross_check:
@@ -305,7 +331,7 @@ def run_case(cx: Ctx, succs, variant=0, order=None, wrap=False, cross_check=Fals
             raise AssertionError(f"oracle self-check failed (removal vs path enumeration) on {succs}")
         cx.c("oracle_cross_checks")
     nt = nontrivial(succs, R)
-    if nt:
+    if nt and count_nt:
         cx.nontrivial_count += 1
         if record_hash:
             cx.hashes.append(shash(("g", succs)))
@@ -313,12 +339,9 @@ def run_case(cx: Ctx, succs, variant=0, order=None, wrap=False, cross_check=Fals
         cx.c("graphs_with_unreachable_blocks")
         if any(u not in R and any(v in R for v in succs[u]) for u in range(n)):
             cx.c("graphs_with_unreachable_pred_of_reachable")
-    wit = {"succs": [list(s) for s in succs], "variant": variant, "order": list(order) if order else None,
-           "wrap": wrap, "replay_job": {"kind": "one", "succs": [list(s) for s in succs], "variant": variant,
-                                         "order": list(order) if order else None, "wrap": wrap}}
 
     # ---- dominance
-    if cx.counters.get("viol:dominance:construction-does-not-terminate", 0) >= MAX_HANGS:
+    if cx.counters.get("hangs_dominance", 0) >= MAX_HANGS:
         cx.c("dominance_skipped_after_repeated_hangs")
         return
     signal.setitimer(signal.ITIMER_VIRTUAL, CPU_GUARD_S)
@@ -328,6 +351,7 @@ def run_case(cx: Ctx, succs, variant=0, order=None, wrap=False, cross_check=Fals
         finally:
             signal.setitimer(signal.ITIMER_VIRTUAL, 0)
     except Hang:
+        cx.c("hangs_dominance")
         cx.viol("dominance:construction-does-not-terminate", f"DominanceInfo(region) used > {CPU_GUARD_S}s CPU on {succs}", wit)
         info = None
     except Exception as e:  # noqa: BLE001 - a raise of the code under test is an observation
@@ -359,7 +383,14 @@ def run_case(cx: Ctx, succs, variant=0, order=None, wrap=False, cross_check=Fals
             if module_fn != "all" and pairs:
                 pairs = [pairs[variant % len(pairs)], pairs[(variant * 7 + 3) % len(pairs)]]
             for a, b in pairs:
-                got = X["strictly_dominates"](blocks[a], blocks[b])
+                try:
+                    got = X["strictly_dominates"](blocks[a], blocks[b])
+                except Exception as e:  # noqa: BLE001 - a raise of the code under test is an observation
+                    w = dict(wit)
+                    w.update(a=a, b=b)
+                    cx.viol(f"dominance:module.strictly_dominates:raises:{type(e).__name__}",
+                            f"strictly_dominates(bb{a}, bb{b}) raised {e!r}; intended succs={succs}", w)
+                    break
                 cx.c("module_strictly_dominates_compared")
                 if got is not (a in dom[b] and a != b):
                     bad.append((a, b, "module.strictly_dominates", got, a in dom[b] and a != b))
@@ -375,14 +406,14 @@ def run_case(cx: Ctx, succs, variant=0, order=None, wrap=False, cross_check=Fals
                     key = "dominance:unreachable-rootless-predecessor-erases-dominators"
                 w = dict(wit)
                 w.update(a=a, b=b, query=what, got=got, want=want, reachable=sorted(R))
-                if cx.per_key.get(key, 0) < 4:
+                if cx.per_key.get(cx.keyp + key, 0) < 4:
                     w["ir"] = ir_text(region)
                 cx.viol(key, f"{what}(bb{a}, bb{b}) = {got}, path definition says {want}; succs={succs} reachable={sorted(R)}", w)
             cx.c("graphs_with_dominance_mismatch")
 
     # ---- post-order
     limit = 4 * n + 8
-    if cx.counters.get("viol:postorder:does-not-terminate", 0) >= MAX_HANGS:
+    if cx.counters.get("hangs_postorder", 0) >= MAX_HANGS:
         cx.c("postorder_skipped_after_repeated_hangs")
         return
     signal.setitimer(signal.ITIMER_VIRTUAL, PO_CPU_GUARD_S)
@@ -401,6 +432,7 @@ def run_case(cx: Ctx, succs, variant=0, order=None, wrap=False, cross_check=Fals
             signal.setitimer(signal.ITIMER_VIRTUAL, 0)
     except Hang:
         it = None  # drop the (possibly huge) stack
+        cx.c("hangs_postorder")
         cx.viol("postorder:does-not-terminate",
                 f"PostOrderIterator used > {PO_CPU_GUARD_S}s CPU without finishing on {succs}", wit)
         cx.c("graphs_with_postorder_mismatch")
@@ -459,13 +491,269 @@ def run_case(cx: Ctx, succs, variant=0, order=None, wrap=False, cross_check=Fals
                     key = "postorder:successor-marked-seen-when-pushed-emitted-late"
             w = dict(wit)
             w.update(got_order=po, recursive_dfs_order=ref_recursive_postorder(esuccs), reachable=sorted(ER))
-            if cx.per_key.get(key, 0) < 4:
+            if cx.per_key.get(cx.keyp + key, 0) < 4:
                 w["ir"] = ir_text(region)
             cx.viol(key, f"PostOrderIterator: {kind}: {detail}; succs={esuccs}", w)
         cx.c("graphs_with_postorder_mismatch")
-    if len(cx.samples) < 2 and nt and n >= 3:
+    if sample and len(cx.samples) < 2 and nt and n >= 3:
         cx.samples.append({"succs": [list(s) for s in succs], "reachable": sorted(R),
                            "dominators": {str(b): sorted(dom[b]) for b in sorted(R)}, "post_order": po})
+
+
+# ------------------------------------------------------------------ edit histories
+# The generator keeps its OWN record of the intended CFG (block ids in region order + per-block successor ids) and
+# applies every edit both to that record and, through a public xDSL API, to the IR. The reference is computed from
+# the record only; `op.successors` / `region.blocks` are never read back to build it.
+KNOWN_API = ["dominance.DominanceInfo", "dominance.strictly_dominates", "post_order.PostOrderIterator"]
+EDIT_KINDS = ["setitem", "setsucc", "replace_term", "drop_term", "add_term", "add_block", "erase_block", "move_block",
+              "split", "clone"]
+MAX_HIST_BLOCKS = 7
+
+
+class Hist:
+    def __init__(self, init_succs, pad_seed=0):
+        X = _X
+        self.next_id = len(init_succs)
+        self.order = list(range(len(init_succs)))
+        self.succ = {i: list(s) for i, s in enumerate(init_succs)}
+        self.obj = {i: X["Block"]() for i in self.order}
+        self.has_term = {}
+        self.grave = []  # strong references to everything erased (ids are never recycled)
+        for i in self.order:
+            if (pad_seed + i) % 3 == 0:
+                self.obj[i].add_op(X["TestOp"].create(result_types=[X["i32"]]))
+            # a successor-free block is built without terminator every 4th time
+            if self.succ[i] or (pad_seed + i) % 4:
+                self.obj[i].add_op(X["TestTermOp"].create(successors=[self.obj[j] for j in self.succ[i]]))
+                self.has_term[i] = True
+            else:
+                self.has_term[i] = False
+        self.region = X["Region"]([self.obj[i] for i in self.order])
+        self.holder = X["TestOp"].create(regions=[self.region]) if pad_seed % 2 else None
+
+    def term(self, i):
+        return self.obj[i].last_op
+
+    def new_term(self, tgts):
+        return _X["TestTermOp"].create(successors=[self.obj[j] for j in tgts])
+
+    def indexed(self):
+        pos = {b: k for k, b in enumerate(self.order)}
+        succs = tuple(tuple(pos[t] for t in self.succ[b]) for b in self.order)
+        return succs, [self.obj[b] for b in self.order], [self.has_term[b] for b in self.order]
+
+    def incoming(self, b):
+        return [u for u in self.order for t in self.succ[u] if t == b]
+
+    # -------------------------------------------------------------- apply one explicit step to record AND IR
+    def apply(self, step):
+        X = _X
+        k = step[0]
+        if k == "setitem":
+            _, b, i, t = step
+            self.term(b).successors[i] = self.obj[t]
+            self.succ[b][i] = t
+        elif k == "setsucc":
+            _, b, tg = step
+            self.term(b).successors = [self.obj[t] for t in tg]
+            self.succ[b] = list(tg)
+        elif k == "replace_term":
+            _, b, tg, how = step
+            old, new = self.term(b), self.new_term(tg)
+            blk = self.obj[b]
+            if how == "erase_add":
+                blk.erase_op(old)
+                blk.add_op(new)
+            elif how == "rewriter":
+                X["Rewriter"].replace_op(old, new)
+            elif how == "insert_detach":
+                blk.insert_op_before(new, old)
+                blk.detach_op(old)
+            else:  # insert_erase
+                blk.insert_op_before(new, old)
+                old.detach()
+                old.erase()
+            self.grave.append(old)
+            self.succ[b] = list(tg)
+        elif k == "drop_term":
+            _, b, how = step
+            old = self.term(b)
+            if how == "erase":
+                self.obj[b].erase_op(old)
+            else:
+                X["Rewriter"].erase_op(old)
+            self.grave.append(old)
+            self.succ[b] = []
+            self.has_term[b] = False
+        elif k == "add_term":
+            _, b, tg = step
+            self.obj[b].add_op(self.new_term(tg))
+            self.succ[b] = list(tg)
+            self.has_term[b] = True
+        elif k == "add_block":
+            _, nb, idx, tg, how = step
+            blk = X["Block"]()
+            self.obj[nb] = blk
+            self.next_id = max(self.next_id, nb + 1)
+            if how == "add":
+                self.region.add_block(blk)
+                idx = len(self.order)
+            elif how == "before":
+                self.region.insert_block_before(blk, self.obj[self.order[idx]])
+            elif how == "after":
+                self.region.insert_block_after(blk, self.obj[self.order[idx - 1]])
+            else:
+                self.region.insert_block(blk, idx)
+            self.order.insert(idx, nb)
+            if tg is None:
+                self.succ[nb], self.has_term[nb] = [], False
+            else:
+                blk.add_op(self.new_term(tg))
+                self.succ[nb], self.has_term[nb] = list(tg), True
+        elif k == "erase_block":
+            _, b, how = step
+            blk = self.obj[b]
+            if how == "erase":
+                self.region.erase_block(blk)
+            elif how == "erase_index":
+                self.region.erase_block(self.order.index(b))
+            else:
+                self.region.detach_block(blk)
+            self.grave.append(blk)
+            self.order.remove(b)
+            del self.succ[b], self.has_term[b]
+        elif k == "move_block":
+            _, b, idx = step
+            blk = self.region.detach_block(self.obj[b])
+            self.order.remove(b)
+            self.region.insert_block(blk, idx)
+            self.order.insert(idx, b)
+        elif k == "split":
+            _, b, nb, at_term = step
+            blk = self.obj[b]
+            first = blk.last_op if at_term or blk.first_op is blk.last_op else blk.first_op
+            new = blk.split_before(first)
+            self.obj[nb] = new
+            self.next_id = max(self.next_id, nb + 1)
+            self.order.insert(self.order.index(b) + 1, nb)
+            self.succ[nb], self.has_term[nb] = self.succ[b], self.has_term[b]
+            self.succ[b], self.has_term[b] = [], False
+        else:
+            raise ValueError(k)
+
+    # -------------------------------------------------------------- generate one valid step for the current record
+    def gen(self, rng, focus=None):
+        n = len(self.order)
+        with_term = [b for b in self.order if self.has_term[b]]
+        with_edges = [b for b in self.order if self.succ[b]]
+        for _ in range(30):
+            k = focus if focus and rng.random() < .5 else rng.choices(
+                ["setitem", "setsucc", "replace_term", "drop_term", "add_term", "add_block", "erase_block", "move_block", "split"],
+                [8, 4, 4, 1, 2, 2, 2, 2, 1])[0]
+            if k == "setitem" and with_edges:
+                # prefer terminators with parallel edges: the in-place retargeting must move exactly edge i
+                multi = [b for b in with_edges if len(set(self.succ[b])) < len(self.succ[b])]
+                b = rng.choice(multi) if multi and rng.random() < .6 else rng.choice(with_edges)
+                return ["setitem", b, rng.randrange(len(self.succ[b])), rng.choice(self.order)]
+            if k == "setsucc" and with_term:
+                b = rng.choice(with_term)
+                return ["setsucc", b, self.rand_targets(rng)]
+            if k == "replace_term" and with_term:
+                b = rng.choice(with_term)
+                return ["replace_term", b, self.rand_targets(rng), rng.choice(["erase_add", "rewriter", "insert_detach", "insert_erase"])]
+            if k == "drop_term" and with_term:
+                return ["drop_term", rng.choice(with_term), rng.choice(["erase", "rewriter"])]
+            if k == "add_term":
+                cand = [b for b in self.order if not self.has_term[b]]
+                if cand:
+                    return ["add_term", rng.choice(cand), self.rand_targets(rng)]
+            if k == "add_block" and n < MAX_HIST_BLOCKS:
+                how = rng.choice(["add", "before", "after", "insert"])
+                idx = n if how == "add" else rng.randrange(0 if how in ("before", "insert") else 1, n + (how != "before"))
+                nb = self.next_id
+                tg = None if rng.random() < .2 else [rng.choice(self.order + [nb]) for _ in range(rng.choice([0, 1, 2, 2]))]
+                return ["add_block", nb, idx, tg, how]
+            if k == "erase_block" and n > 1:
+                cand = [b for b in self.order if not self.incoming(b)]
+                if cand:
+                    return ["erase_block", rng.choice(cand), rng.choice(["erase", "erase_index", "detach"])]
+            if k == "move_block" and n > 1:
+                return ["move_block", rng.choice(self.order), rng.randrange(n)]
+            if k == "split" and n < MAX_HIST_BLOCKS:
+                cand = [b for b in self.order if self.obj[b].first_op is not None]
+                if cand:
+                    return ["split", rng.choice(cand), self.next_id, rng.random() < .6]
+        return ["move_block", self.order[0], 0]
+
+    def rand_targets(self, rng):
+        cnt = rng.choice([0, 1, 1, 2, 2, 2, 3])
+        t = [rng.choice(self.order) for _ in range(cnt)]
+        if cnt >= 2 and rng.random() < .35:
+            t[1] = t[0]  # parallel edge
+        return t
+
+
+def check_hist(cx: Ctx, h: Hist, init, steps, last, clone=False):
+    """check the current IR of the history against the generator's record"""
+    X = _X
+    succs, blocks, term_ok = h.indexed()
+    actual = list(h.region.blocks)
+    wit = {"initial_succs": init["succs"], "pad_seed": init["pad"], "steps": list(steps),
+           "intended_order": list(h.order), "intended_succs": {str(b): list(h.succ[b]) for b in h.order},
+           "replay_job": {"kind": "hist_one", "succs": init["succs"], "pad": init["pad"], "steps": list(steps)}}
+    cx.keyp = f"after-{last}:"
+    try:
+        if len(actual) != len(blocks) or any(x is not y for x, y in zip(actual, blocks)):
+            cx.viol("history:region-block-list-differs-from-intended",
+                    f"after {steps[-1] if steps else 'build'} the region holds {len(actual)} blocks in an order other than intended", wit)
+            return False
+        if not blocks:
+            return True
+        cx.c("history_states_checked")
+        cx.c("history_state_after:" + last)
+        if any(len(set(s)) < len(s) for s in succs):
+            cx.c("history_states_with_parallel_edges")
+        if any(i in s for i, s in enumerate(succs)):
+            cx.c("history_states_with_self_loops")
+        check_graph(cx, succs, h.region, blocks, term_ok, wit, cross_check=len(blocks) <= 5, module_fn="all",
+                    count_nt=False, sample=False)
+        if clone:
+            cx.keyp = f"after-{last}+clone:"
+            r2 = h.region.clone()
+            cx.c("history_clones_checked")
+            check_graph(cx, succs, r2, list(r2.blocks), term_ok, wit, cross_check=False, module_fn="all",
+                        count_nt=False, sample=False)
+    finally:
+        cx.keyp = ""
+    return True
+
+
+def run_history(cx: Ctx, init_succs, pad, steps=None, rng=None, nsteps=0, focus=None):
+    """steps given: replay them; else generate nsteps steps with rng."""
+    init = {"succs": [list(s) for s in init_succs], "pad": pad}
+    h = Hist(init_succs, pad)
+    done = []
+    cx.c("histories")
+    if not check_hist(cx, h, init, done, "build"):
+        return done
+    todo = list(steps) if steps is not None else None
+    for k in range(len(todo) if todo is not None else nsteps):
+        step = todo[k] if todo is not None else h.gen(rng, focus)
+        done.append(step)
+        try:
+            h.apply(step)
+        except Exception as e:  # noqa: BLE001 - the edit API itself raising is outside C24 (C01's domain): history ends
+            cx.c("history_edit_raised:" + step[0] + ":" + type(e).__name__)
+            return done
+        cx.c("history_edits")
+        cx.c("history_edit:" + step[0] + (":" + str(step[-1]) if step[0] in ("replace_term", "erase_block", "drop_term") else
+                                          ":" + step[4] if step[0] == "add_block" else ""))
+        if not check_hist(cx, h, init, done, step[0], clone=(rng is not None and rng.random() < .08)):
+            return done
+    if len(cx.samples) < 3 and len(done) >= 4 and steps is None:
+        cx.samples.append({"edit_history": {"initial_succs": init["succs"], "steps": done[:8],
+                                            "final_intended_succs": {str(b): h.succ[b] for b in h.order}}})
+    return done
 
 
 # ------------------------------------------------------------------ random graphs
@@ -535,6 +823,13 @@ def plan(tier, seed):
         for first in range(L):
             for part in range(4):
                 jobs.append({"kind": "exh5", "first": first, "part": part, "parts": 4})
+    # edit histories: every single in-place retargeting `term.successors[i] = blk` on every n<=3 graph, plus random
+    # multi-step histories through all public edit APIs
+    for part in range(4):
+        jobs.append({"kind": "hist_exh", "part": part, "parts": 4})
+    nh, perh, steps = (16, 110, 12) if tier == "quick" else (64, 600, 16)
+    for r in range(nh):
+        jobs.append({"kind": "hist_rand", "seed": seed * 100003 + 7000 + r, "count": perh, "steps": steps})
     nrand, per = (16, 1500) if tier == "quick" else (64, 4000)
     for r in range(nrand):
         jobs.append({"kind": "rand", "seed": seed * 100003 + r, "count": per, "nmin": 5 if tier == "quick" else 6})
@@ -593,6 +888,45 @@ def work(job):
             if cx.nontrivial_count > before:
                 cx.c("random_nontrivial")
         cx.nontrivial_count = 0  # random graphs are counted by hash
+    elif kind == "hist_exh":
+        gi = 0
+        for n in (1, 2, 3):
+            for succs in itertools.product(lists_ordered(n), repeat=n):
+                gi += 1
+                if gi % job["parts"] != job["part"]:
+                    continue
+                for b in range(n):
+                    for i in range(len(succs[b])):
+                        for t in range(n):
+                            run_history(cx, succs, pad=gi + b + i + t, steps=[["setitem", b, i, t]])
+                            evals += 1
+                            cx.c("exhaustive_single_retargetings")
+                            if len(set(succs[b])) < len(succs[b]) and t != succs[b][i]:
+                                cx.c("exhaustive_retargetings_of_one_parallel_edge")
+        cx.nontrivial_count = 0
+    elif kind == "hist_rand":
+        rng = random.Random(job["seed"])
+        for _ in range(job["count"]):
+            n = rng.choice([2, 3, 3, 4, 4, 5])
+            init = []
+            for u in range(n):
+                cnt = rng.choice([0, 1, 1, 2, 2, 3])
+                t = [rng.randrange(n) for _ in range(cnt)]
+                if cnt >= 2 and rng.random() < .4:
+                    t[1] = t[0]
+                init.append(t)
+            focus = rng.choice([None, None, "setitem", "setsucc", "replace_term", "move_block", "add_block"])
+            done = run_history(cx, init, pad=rng.randrange(12), rng=rng, nsteps=job["steps"], focus=focus)
+            evals += 1
+            kinds = {st[0] for st in done}
+            if len(done) >= 4 and len(kinds) >= 2:
+                cx.hashes.append(shash(("h", init, done)))
+                cx.c("random_histories_nontrivial")
+        cx.nontrivial_count = 0
+    elif kind == "hist_one":
+        run_history(cx, job["succs"], pad=job.get("pad", 0), steps=job["steps"])
+        evals = 1
+        cx.nontrivial_count = 0
     elif kind == "one":
         run_case(cx, [tuple(s) for s in job["succs"]], variant=job.get("variant", 0), order=job.get("order"),
                  wrap=job.get("wrap", False), cross_check=len(job["succs"]) <= 5, module_fn="all", record_hash=True)
@@ -602,7 +936,7 @@ def work(job):
         raise ValueError(kind)
     cx.c("exhaustive_nontrivial_graphs", cx.nontrivial_count)
     return {"evaluations": evals, "nontrivial": cx.hashes, "samples": cx.samples, "counters": cx.counters,
-            "violations": cx.violations}
+            "sets": {"public_module_level_api": _X["public_api"]}, "violations": cx.violations}
 
 
 def finish(agg, tier):
@@ -611,11 +945,21 @@ def finish(agg, tier):
     need = {"graphs": 150_000, "dominates_queries_compared": 1_000_000, "postorder_traversals": 150_000,
             "graphs_with_unreachable_pred_of_reachable": 20_000, "oracle_cross_checks": 150_000,
             "module_strictly_dominates_compared": 100_000, "random_nontrivial": 5_000}
+    need.update({"history_states_checked": 20_000, "history_edits": 12_000, "history_states_with_parallel_edges": 4_000,
+                 "history_states_with_self_loops": 4_000, "history_clones_checked": 300, "random_histories_nontrivial": 800})
+    for k in ("setitem", "setsucc", "replace_term", "drop_term", "add_term", "add_block", "erase_block", "move_block", "split"):
+        need["history_state_after:" + k] = 150
     for k, v in need.items():
         if c.get(k, 0) < v:
             inc.append(f"{k}={c.get(k, 0)} below reach threshold {v}")
+    api = sorted(agg.sets.get("public_module_level_api", ()))
+    if api != KNOWN_API:
+        inc.append(f"public module-level API of dominance.py/post_order.py is {api}, the check exercises {KNOWN_API}: "
+                   "an entry point is not covered (or vanished)")
     if c.get("exhaustive_graphs_n_eq_4", 0) != 21 ** 4 or c.get("exhaustive_graphs_n_le_3", 0) != 2249:
         inc.append("bounded-exhaustive enumeration incomplete")
+    if c.get("exhaustive_single_retargetings", 0) != 32224 or c.get("exhaustive_retargetings_of_one_parallel_edge", 0) != 6140:
+        inc.append("exhaustive single-edge retargeting sweep (n<=3) incomplete")
     if tier == "thorough" and c.get("exhaustive_graphs_n_eq_5_sets", 0) != 16 ** 5:
         inc.append("n=5 enumeration incomplete")
     bounds = {"blocks_ordered_lists_len_le_2": 4}
